@@ -15,6 +15,7 @@
 #include <cstdint>
 #include <limits>
 #include <unistd.h>
+#include <utility>
 #include <memory>
 #include <new>
 #include <stack>
@@ -79,7 +80,21 @@ struct HD {
 };
 static_assert(!std::is_trivial_v<HD> && !etl::is_trivial_v<HD>);
 
+// A key/payload pair, trivially copyable (the array storage): ordered by the key alone, equal when key and payload are
+// equal, so operator== is finer than the equivalence induced by operator<.  The protocol value v stands for
+// key = v / 2, payload = v % 2 (Tetl.C01.ltOf / eqOf of kind kp).
+struct KP {
+    int key;
+    int payload;
+    KP() noexcept = default;
+    KP(int x) noexcept : key(x / 2), payload(x % 2) { } // NOLINT
+    friend auto operator==(KP const& a, KP const& b) noexcept -> bool { return a.key == b.key && a.payload == b.payload; }
+    friend auto operator<(KP const& a, KP const& b) noexcept -> bool { return a.key < b.key; }
+};
+static_assert(std::is_trivial_v<KP> && etl::is_trivial_v<KP>);
+
 static auto val(int x) -> long long { return x; }
+static auto val(KP const& x) -> long long { return 2LL * x.key + x.payload; }
 static auto val(NT const& x) -> long long { return x.v; }
 static auto val(HD const& x) -> long long { return x.v; }
 
@@ -167,23 +182,37 @@ static auto valid_line(std::string const& ty, Line const& l, std::size_t cap, st
         return true;
     }
     bool push  = op == "push" || op == "push_rv" || op == "emplace_back";
+    bool ptop  = op == "push_top" || op == "emplace_top";
     bool tryp  = op == "try_push" || op == "try_push_rv" || op == "try_emplace";
     bool unch  = op == "unchecked_push" || op == "unchecked_push_rv" || op == "unchecked_emplace";
     if (op == "dump") return true;
     if (ty == "stk") {
         if (push) return has_nat("x") && n < cap;
+        if (ptop) return n > 0 && n < cap;
         if (op == "pop") return n > 0;
         return false;
     }
     if (ty == "ipv") {
         if (tryp) return has_nat("x");
         if (unch) return has_nat("x") && n < cap;
+        // the argument is element i of the object itself
+        if (op == "try_push_alias" || op == "try_emplace_alias") return has_nat("i") && nat("i") < n;
+        if (op == "unchecked_push_alias" || op == "unchecked_emplace_alias") return has_nat("i") && nat("i") < n && n < cap;
         if (op == "pop") return n > 0;
         if (op == "clear") return true;
         return false;
     }
     // static_vector
     if (push) return has_nat("x") && n < cap;
+    // the argument is element i of the object itself
+    if (ptop) return n > 0 && n < cap;
+    if (op == "push_alias" || op == "emplace_back_alias") return has_nat("i") && nat("i") < n && n < cap;
+    if (op == "insert_alias" || op == "emplace_alias")
+        return has_nat("i") && has_nat("pos") && nat("i") < n && n < cap && nat("pos") <= n;
+    if (op == "insert_fill_alias")
+        return has_nat("i") && has_nat("pos") && has_nat("n") && nat("i") < n && nat("pos") <= n && nat("n") <= cap
+            && n + nat("n") <= cap;
+    if (op == "resize_val_alias") return has_nat("i") && has_nat("n") && nat("i") < n && nat("n") <= cap;
     if (op == "pop") return n > 0;
     if (op == "insert" || op == "insert_rv" || op == "emplace")
         return has_nat("x") && has_nat("pos") && n < cap && nat("pos") <= n;
@@ -385,6 +414,32 @@ static auto seq_op(C& c, Line const& l, bool& handled) -> std::string
         return "cnt=" + std::to_string(n);
     }
     if (op == "dump") { return "ok"; }
+    // the argument is a reference to an element of the container itself ([sequence.reqmts] requires this to work
+    // for every member below; std::vector may even reallocate underneath the reference)
+    auto elem = [&]() -> E const& { return std::as_const(c)[static_cast<std::size_t>(l.i("i"))]; };
+    if (op == "push_alias") {
+        c.push_back(elem());
+        return "ok";
+    }
+    if (op == "emplace_back_alias") {
+        c.emplace_back(elem());
+        return "ok";
+    }
+    if (op == "push_top") {
+        c.push_back(c.back());
+        return "ok";
+    }
+    if (op == "emplace_top") {
+        c.emplace_back(c.back());
+        return "ok";
+    }
+    if (op == "insert_alias") { return it_off(c.insert(pos(), elem())); }
+    if (op == "emplace_alias") { return it_off(c.emplace(pos(), elem())); }
+    if (op == "insert_fill_alias") { return it_off(c.insert(pos(), static_cast<std::size_t>(l.i("n")), elem())); }
+    if (op == "resize_val_alias") {
+        c.resize(static_cast<std::size_t>(l.i("n")), elem());
+        return "ok";
+    }
     handled = false;
     return "";
 }
@@ -565,6 +620,14 @@ struct StkRunner final : Runner {
             c.pop();
             return "ok";
         }
+        if (op == "push_top") {
+            c.push(c.top());
+            return "ok";
+        }
+        if (op == "emplace_top") {
+            c.emplace(c.top());
+            return "ok";
+        }
         if (op == "dump") return "ok";
         return "bad-op";
     }
@@ -663,6 +726,11 @@ struct IpvRunner final : Runner {
         }
         if (op == "unchecked_push_rv") return ref(c.unchecked_push_back(mk<E>(l.i("x"))));
         if (op == "unchecked_emplace") return ref(c.unchecked_emplace_back(static_cast<int>(l.i("x"))));
+        auto elem = [&]() -> E const& { return std::as_const(c)[static_cast<std::size_t>(l.i("i"))]; };
+        if (op == "try_push_alias") return ptr(c.try_push_back(elem()));
+        if (op == "try_emplace_alias") return ptr(c.try_emplace_back(elem()));
+        if (op == "unchecked_push_alias") return ref(c.unchecked_push_back(elem()));
+        if (op == "unchecked_emplace_alias") return ref(c.unchecked_emplace_back(elem()));
         if (op == "pop") {
             c.pop_back();
             return "ok";
@@ -695,6 +763,15 @@ struct IpvRunner final : Runner {
         }
         if (op == "unchecked_push" || op == "unchecked_push_rv" || op == "unchecked_emplace") {
             c.push_back(mk<E>(l.i("x")));
+            return "ref=" + std::to_string(val(c.back()));
+        }
+        if (op == "try_push_alias" || op == "try_emplace_alias") {
+            if (c.size() == Cap) return "null";
+            c.push_back(c[static_cast<std::size_t>(l.i("i"))]);
+            return "ptr=" + std::to_string(val(c.back()));
+        }
+        if (op == "unchecked_push_alias" || op == "unchecked_emplace_alias") {
+            c.push_back(c[static_cast<std::size_t>(l.i("i"))]);
             return "ref=" + std::to_string(val(c.back()));
         }
         if (op == "pop") {
@@ -963,6 +1040,32 @@ static auto make_hd(std::string const& ty, std::size_t cap, bool value_init) -> 
     return nullptr;
 }
 
+// the key/payload kind: static_vector and the stack over it (the relational operators), small capacities
+#ifndef C01_KP_CAPS
+    #define C01_KP_CAPS(X) X(0) X(1) X(2) X(3) X(4)
+#endif
+#ifndef C01_KP_STK_CAPS
+    #define C01_KP_STK_CAPS(X) X(1) X(3)
+#endif
+static auto make_kp(std::string const& ty, std::size_t cap, bool value_init) -> std::unique_ptr<Runner>
+{
+#define X(N)                                                                                                           \
+    if (ty == "sv" && cap == (N)) {                                                                                    \
+        Slot<etl::static_vector<KP, N>>::value_init = value_init;                                                      \
+        return std::make_unique<SvRunner<KP, N>>();                                                                    \
+    }
+    C01_KP_CAPS(X)
+#undef X
+#define X(N)                                                                                                           \
+    if (ty == "stk" && cap == (N)) {                                                                                   \
+        Slot<etl::stack<KP, etl::static_vector<KP, N>>>::value_init = value_init;                                      \
+        return std::make_unique<StkRunner<KP, N>>();                                                                   \
+    }
+    C01_KP_STK_CAPS(X)
+#undef X
+    return nullptr;
+}
+
 template <typename E>
 static auto api_for(Line const& l, std::string const& ty, std::size_t cap) -> std::string
 {
@@ -990,14 +1093,14 @@ static auto step(Line const& l) -> std::string
         auto ty   = l.str("ty");
         auto cap  = static_cast<std::size_t>(l.i("cap"));
         auto kind = l.str("kind");
-        if (kind != "int" && kind != "nt" && kind != "hd") return "bad-op\tbad-op";
+        if (kind != "int" && kind != "nt" && kind != "hd" && kind != "kp") return "bad-op\tbad-op";
         if (l.op != "new") {
-            if (kind == "hd") return "bad-op\tbad-op";
+            if (kind == "hd" || kind == "kp") return "bad-op\tbad-op";
             return kind == "nt" ? api_for<NT>(l, ty, cap) : api_for<int>(l, ty, cap);
         }
         g_runner.reset();
         bool vi  = l.has("init") ? l.str("init") == "value" : true;
-        g_runner = kind == "hd" ? make_hd(ty, cap, vi) : kind == "nt" ? make<NT>(ty, cap, vi) : make<int>(ty, cap, vi);
+        g_runner = kind == "kp" ? make_kp(ty, cap, vi) : kind == "hd" ? make_hd(ty, cap, vi) : kind == "nt" ? make<NT>(ty, cap, vi) : make<int>(ty, cap, vi);
         if (!g_runner) return "bad-op\tbad-op";
         Line d;
         d.op   = "dump";
